@@ -13,7 +13,7 @@ FUNCTIONS = ["wannierberri.smoother.AbstractSmoother.__init__/__call__", "wannie
              "FermiDiracSmoother/GaussianSmoother/VoidSmoother", "wannierberri.result.energyresult.EnergyResult.dataSmooth/set_smoother"]
 BOUNDS = dict(quick=dict(NE="3..5 per axis", energy_axes="1..2", rank="0..1", kernel="concrete Fermi-Dirac/Gaussian doubles for enumerated (dE, smear) "
                          "and a fully symbolic positive kernel of half width 1..2", data="symbolic complex"),
-              thorough=dict(NE="3..7 per axis", energy_axes="1..3", rank="0..2", kernel="as quick, more (dE, smear) and half width 1..3", data="symbolic complex"))
+              thorough=dict(NE="2..9 per axis", energy_axes="1..3", rank="0..2", kernel="as quick, more (dE, smear) and half width 1..3", data="symbolic complex"))
 EXPLANATION = ("The real smoothers and EnergyResult.dataSmooth run on symbolic data (and, in the kernel cases, on a symbolic positive kernel); "
                "linearity, constant preservation, axis locality, commutation and 'dataSmooth = composition of all axis smoothers' are polynomial identities decided by z3.")
 ASSUMPTIONS = ["evenly spaced energy grid (documented)", "kernel weights positive (symbolic-kernel cases)"]
@@ -167,12 +167,12 @@ def case_result(rec, kinds, NEs, dE, smear, rank):
 def cases(tier, seed):
     out = []
     q = tier == "quick"
-    params = [(0.1, 0.15)] if q else [(0.1, 0.15), (0.05, 0.2), (1.0, 0.3)]
+    params = [(0.1, 0.15)] if q else [(0.1, 0.15), (0.05, 0.2), (1.0, 0.3), (0.3, 0.05)]
     kinds1 = ["G", "sym1", "sym2", "void", "FD"]
     for dE, smear in params:
         for kind in kinds1:
             sm_par = smear * (11604.5 if kind == "FD" else 1)
-            for NE in ((3, 5) if q else (3, 4, 5, 7)):
+            for NE in ((3, 5) if q else (2, 3, 4, 5, 7, 9)):
                 if kind.startswith("sym") and int(kind[3:]) >= NE:
                     continue
                 for trailing, pos in (((), 0), ((2,), 0), ((2,), 1), ((2, 3), 1), ((2, 3), 2), ((3, 2, 2), 2), ((2, 3, 2), 3)):
@@ -182,7 +182,7 @@ def cases(tier, seed):
                         continue
                     out.append(Case(f"single {kind} NE={NE} dE={dE} smear={smear} trailing={trailing} axis={pos}", case_single,
                                     dict(kind=kind, NE=NE, dE=dE, smear=sm_par, trailing=trailing, axis_pos=pos)))
-        for kinds in (["G"], ["sym1"], ["G", "G"], ["sym1", "sym1"], ["G", "void"], ["void", "sym1"], ["FD", "G"]) + (() if q else (["G", "G", "G"], ["sym1", "void", "sym1"])):
+        for kinds in (["G"], ["sym1"], ["G", "G"], ["sym1", "sym1"], ["G", "void"], ["void", "sym1"], ["FD", "G"]) + (() if q else (["G", "G", "G"], ["sym1", "void", "sym1"], ["void", "void"], ["sym2", "sym1"])):
             for rank in ((0, 1) if q else (0, 1, 2)):
                 NEs = [3, 4, 3][:len(kinds)] if q else [4, 5, 3][:len(kinds)]
                 if q and len(kinds) > 2 and rank > 0:
